@@ -1,6 +1,7 @@
 --------------------------- MODULE Trace_AllowWindow ---------------------------
 (* Validation of traces recorded from a real BLIP connection (harness/rest/c14_blip_attachments_test.go).
-   Lines: {a:"Reset", beh, proto, refs:[[c..]..]}  {a:"Rev", d}  {a:"Ack", d, closed}  {a:"Get", ph, d, c, res, served, rd}
+   Lines: {a:"Reset", beh, proto, refs:[[c..]..]}  {a:"Rev", d}  {a:"Ack"|"Rej", d, closed}  {a:"Get", ph, d, c, res, served, rd}
+          (Rej = the client answered the `rev` message with an error)
    Pass P: out := the recorded outcome, flight advances from the recorded Rev / Ack lines; AllowWindow and WindowCloses are
            invariants.  Pass C: additionally the outcome is the one the connection's table (evolved by the model) gives. *)
 EXTENDS AllowWindow, TraceLib
@@ -18,11 +19,12 @@ LoggedOut == out' = [d |-> R.d, c |-> R.c, served |-> R.served, rd |-> R.rd]
 (* the table is not observable from the client side: it evolves by the model in both passes *)
 PRev == Ev("Rev") /\ ImplSendRev(R.d) /\ GhostSendRev(R.d) /\ Keep
 PAck == Ev("Ack") /\ ImplAck(R.d) /\ GhostAck(R.d, R.closed) /\ Keep
+PRej == Ev("Rej") /\ ImplRevRejected(R.d) /\ GhostRevRejected(R.d, R.closed) /\ Keep
 PGet == Ev("Get") /\ LoggedOut /\ UNCHANGED allowed /\ GhostGet /\ Keep
-PNext == Reset \/ PRev \/ PAck \/ PGet
+PNext == Reset \/ PRev \/ PAck \/ PRej \/ PGet
 PSpec == TInit /\ [][PNext]_tvars
 CGet == Ev("Get") /\ ImplGet(R.d, R.c) /\ LoggedOut /\ GhostGet /\ Keep
-CNext == Reset \/ PRev \/ PAck \/ CGet
+CNext == Reset \/ PRev \/ PAck \/ PRej \/ CGet
 CSpec == TInit /\ [][CNext]_tvars
 Progress == Mark(l)
 Accept == PrintHWM
